@@ -2,13 +2,16 @@
 
 model        : spec/VecSolve.tla - equations as term lists <<coefficient, vector, side>>; TLC enumerates the shapes
                (1..MaxTerms terms, kind and number of the unknown's coefficients, unknown inside a product, Eq vs
-               expression, factor reduction on/off, non-vector expressions, scalar equations, functions applied
-               to both sides) and checks the statement's own consequences on the model (MoveNegates, Equivalent,
-               Solution, RefusalRule).
+               expression incl. the solved forms Eq(u, ...) with u again on the right, factor reduction on/off,
+               non-vector expressions, scalar / radical equations, linear systems with the unknowns requested in
+               every order, functions applied to both sides of vector equations and of bare scalar expressions)
+               and checks the statement's own consequences on the model (MoveNegates, Equivalent, Solution,
+               RefusalRule, RadicalsMeaningful, SystemsMeaningful).
 spec -> code : every shape is built with real VectorSymbols and given to solve_for_vector / solve_for_scalar /
                apply; both sides of the result are evaluated by the independent evaluator of harness/vecexpr.py
                under two integer assignments and compared with the model's expectation
-               (lhs - rhs in {+-E/k} resp. {+-E}; refusal by exception; f applied to both sides).
+               (lhs - rhs in {+-E/k} resp. {+-E}; right-hand side = the solution when the unknown occurs once;
+               refusal by exception; f applied to both sides; returned equations satisfied by their solutions).
 code -> spec : every call is recorded (equation, outcome, returned sides as programs) and decided by
                spec/VecSolveTrace.tla (TLC) in exact rational arithmetic.
 """
